@@ -168,6 +168,7 @@ type TopologicalSortIterator struct {
 	invState []int
 	n        int
 	first    bool
+	done     bool
 }
 
 //TopologicalSorts returns an iterator which iterates over all topological sorts of {0, 1, ... , n-1} according to the partial order less. If less(i,j) == true, then this only iterates over permutations where i appears before j.
@@ -206,6 +207,10 @@ func (iter *TopologicalSortIterator) Next() bool {
 		return true
 	}
 
+	if iter.done {
+		return false
+	}
+
 	n := iter.n
 	for k := n - 1; k >= 0; k-- {
 		j := iter.invState[k]
@@ -230,6 +235,8 @@ func (iter *TopologicalSortIterator) Next() bool {
 		iter.state[k] = k
 		iter.invState[k] = k
 	}
+	//Every element has been moved back so the state is the first permutation again. Remember that we have finished.
+	iter.done = true
 	return false
 }
 
